@@ -1844,3 +1844,173 @@ def replay_c07_consts(args):
     if field_modulus != 0x1a0111ea397fe69a4b1ba7b6434bacd764774b84f38512bf6730d2a0f6b0f6241eabfffeb153ffffb9feffffffffaaab or int(G1[0]) != 0x17f1d3a73197d7942695638c4fa9ac0fc3688c4f9774b905a14e3a3f171bac586c55e83ff97a1aeffb3af00adb22c6bb:
         bad.append(("bls12-381 constants",))
     return (len(bad) > 0), "c07_consts: %s" % bad[:3]
+
+
+def replay_c17_subgroup(args):
+    from py_ecc.bls.g2_primitives import subgroup_check
+    from py_ecc.optimized_bls12_381 import G1, G2, Z1, Z2, FQ, FQ2, multiply, add, curve_order, is_inf
+    bad = []
+    T2 = _g2_torsion_point()
+    T1 = (FQ(0), FQ(2), FQ(1))
+    q = _Q381
+    # a second G1 torsion point of larger order
+    x = 1
+    T1b = None
+    while T1b is None:
+        t = (x ** 3 + 4) % q
+        y = pow(t, (q + 1) // 4, q)
+        if y * y % q == t:
+            P = multiply((FQ(x), FQ(y), FQ(1)), curve_order)
+            if not is_inf(P):
+                T1b = P
+        x += 1
+    good = [G1, G2, Z1, Z2, multiply(G1, 5), multiply(G2, curve_order - 1), (FQ(7), FQ(9), FQ(0)), multiply(multiply(G1, 3), 1)]
+    badpts = [T1, T1b, T2, add(G1, T1b), add(multiply(G2, 77), T2), tuple(c * 5 for c in add(G1, T1))]
+    for P in good:
+        if subgroup_check(P) is not True:
+            bad.append(("rejected subgroup point",))
+    for P in badpts:
+        if subgroup_check(P) is not False:
+            bad.append(("accepted point with cofactor component",))
+    return (len(bad) > 0), "c17_subgroup: %d wrong answers %s" % (len(bad), bad[:3])
+
+
+def replay_c17_clear(args):
+    from py_ecc.bls.g2_primitives import subgroup_check
+    from py_ecc.optimized_bls12_381 import FQ, FQ2, multiply, normalize, is_inf, multiply_clear_cofactor_G1, multiply_clear_cofactor_G2
+    from py_ecc.optimized_bls12_381 import constants as cst
+    q = _Q381
+    bad = []
+    if cst.H_EFF_G1 != 0xd201000000010001 or cst.H_EFF_G2 != 0xbc69f08f2ee75b3584c6a0ea91b352888e2a8e9145ad7689986ff031508ffe1329c2f178731db956d82bf015d1212b02ec0ec69d7477c1ae954cbc06689f6a359894c0adebbf6b4e8020005aaa95551:
+        bad.append(("h_eff constants",))
+    n = 0
+    x = 1
+    while n < 3:
+        t = (x ** 3 + 4) % q
+        y = pow(t, (q + 1) // 4, q)
+        if y * y % q == t:
+            P = (FQ(x), FQ(y), FQ(1))
+            C = multiply_clear_cofactor_G1(P)
+            if not subgroup_check(C):
+                bad.append(("G1 clearing leaves the subgroup", x))
+            if normalize(C) != normalize(multiply(P, 0xd201000000010001)):
+                bad.append(("G1 clearing is not h_eff * P", x))
+            n += 1
+        x += 1
+    for kind, xx, yy in _g2_special_points(q, 1)[:4]:
+        P = (FQ2(list(xx)), FQ2(list(yy)), FQ2([1, 0]))
+        C = multiply_clear_cofactor_G2(P)
+        if not subgroup_check(C):
+            bad.append(("G2 clearing leaves the subgroup", kind))
+    return (len(bad) > 0), "c17_clear: %d failures %s" % (len(bad), bad[:3])
+
+
+# ---------------------------------------------------------------------------
+# C10: RFC 9380 F.2 simplified SWU (straight-line, AB != 0) over plain integers, BLS12-381 G1 suite
+
+_G1A = 0x144698a3b8e9433d693a02c96d4982b0ea985383ee66a8d8e8981aefd881ac98936f8da0e0f97f5cf428082d584c1d
+_G1B = 0x12e2908d11688030018b12e8753eee3b2016c1f0f24f4070a0b9c14fcef35ef55a23215a316ceaa5d1cc48e98e172be0
+
+
+def rfc_sswu_g1(u):
+    p, A, B, Z = _Q381, _G1A, _G1B, 11
+    inv0 = lambda a: pow(a, p - 2, p) if a % p else 0
+    is_sq = lambda a: a % p == 0 or pow(a, (p - 1) // 2, p) == 1
+    sqrt = lambda a: pow(a, (p + 1) // 4, p)
+    tv1 = Z * u * u % p
+    tv2 = tv1 * tv1 % p
+    x1 = inv0((tv1 + tv2) % p)
+    e1 = x1 == 0
+    x1 = (x1 + 1) % p
+    if e1:
+        x1 = (-inv0(Z)) % p
+    x1 = x1 * ((-B) * inv0(A) % p) % p
+    gx1 = (x1 * x1 % p * x1 + A * x1 + B) % p
+    x2 = tv1 * x1 % p
+    tv2 = tv1 * tv2 % p
+    gx2 = gx1 * tv2 % p
+    if is_sq(gx1):
+        x, y2 = x1, gx1
+    else:
+        x, y2 = x2, gx2
+    y = sqrt(y2)
+    assert y * y % p == y2
+    if u % 2 != y % 2:
+        y = (-y) % p
+    return (x, y)
+
+
+def replay_c10_map(args):
+    from py_ecc.optimized_bls12_381 import FQ, optimized_swu_G1, iso_map_G1, is_on_curve, b
+    p = _Q381
+    rng = random.Random(10)
+    bad = []
+    w = (-pow(11, -1, p)) % p
+    ts = [0, 1, 2, 3, p - 1, (p - 1) // 2, (p + 1) // 2] + [rng.randrange(p) for _ in range(12)]
+    pt = args.get("point") or {}
+    if "t" in pt:
+        ts.insert(0, int(pt["t"]) % p)
+    if pow(w, (p - 1) // 2, p) == 1:
+        r = pow(w, (p + 1) // 4, p)
+        ts += [r, p - r]
+    for t in ts:
+        try:
+            N, Y, D = optimized_swu_G1(FQ(t))
+            got = (int(N / D), int(Y / D))
+            if got != rfc_sswu_g1(t):
+                bad.append(("swu", t if t < 10 ** 6 else "big"))
+            P = iso_map_G1(N, Y, D)
+            if not is_on_curve(P, b):
+                bad.append(("iso image off curve", t if t < 10 ** 6 else "big"))
+        except Exception as e:
+            bad.append((repr(e)[:50], t if t < 10 ** 6 else "big"))
+    return (len(bad) > 0), "c10_map: %d mismatches %s" % (len(bad), str(bad[:3])[:200])
+
+
+def replay_c10_iso(args):
+    from py_ecc.optimized_bls12_381 import FQ, FQ2, iso_map_G1, iso_map_G2, optimized_swu_G1, optimized_swu_G2, is_on_curve, b, b2, normalize
+    p = _Q381
+    rng = random.Random(12)
+    bad = []
+    for _ in range(6):
+        t = rng.randrange(p)
+        N, Y, D = optimized_swu_G1(FQ(t))
+        lam = rng.randrange(1, p)
+        P1 = iso_map_G1(N, Y, D)
+        P2 = iso_map_G1(N * lam, Y * lam, D * lam)
+        if not is_on_curve(P1, b) or normalize(P1) != normalize(P2):
+            bad.append(("G1", t % 1000))
+        t2 = FQ2([rng.randrange(p), rng.randrange(p)])
+        N, Y, D = optimized_swu_G2(t2)
+        l2 = FQ2([rng.randrange(p), rng.randrange(1, p)])
+        Q1 = iso_map_G2(N, Y, D)
+        Q2 = iso_map_G2(N * l2, Y * l2, D * l2)
+        if not is_on_curve(Q1, b2) or normalize(Q1) != normalize(Q2):
+            bad.append(("G2",))
+    return (len(bad) > 0), "c10_iso: %d failures %s" % (len(bad), bad[:3])
+
+
+def replay_c10_pipeline(args):
+    """hash_to_G2 / hash_to_G1 against the composition of the RFC steps, and the RFC 9380 J.10.1 vector."""
+    import hashlib
+    from py_ecc.bls.hash_to_curve import hash_to_G1, hash_to_G2, hash_to_field_FQ, hash_to_field_FQ2, map_to_curve_G1, map_to_curve_G2, clear_cofactor_G1, clear_cofactor_G2
+    from py_ecc.optimized_bls12_381 import add, normalize
+    from py_ecc.bls.g2_primitives import subgroup_check
+    bad = []
+    dst = b"QUUX-V01-CS02-with-BLS12381G2_XMD:SHA-256_SSWU_RO_"
+    for msg in (b"", b"abc"):
+        u0, u1 = hash_to_field_FQ2(msg, 2, dst, hashlib.sha256)
+        exp = clear_cofactor_G2(add(map_to_curve_G2(u0), map_to_curve_G2(u1)))
+        got = hash_to_G2(msg, dst, hashlib.sha256)
+        if normalize(exp) != normalize(got) or not subgroup_check(got):
+            bad.append(("G2", msg))
+        u0, u1 = hash_to_field_FQ(msg, 2, dst, hashlib.sha256)
+        exp = clear_cofactor_G1(add(map_to_curve_G1(u0), map_to_curve_G1(u1)))
+        got = hash_to_G1(msg, dst, hashlib.sha256)
+        if normalize(exp) != normalize(got) or not subgroup_check(got):
+            bad.append(("G1", msg))
+    x0 = 0x0141ebfbdca40eb85b87142e130ab689c673cf60f1a3e98d69335266f30d9b8d4ac44c1038e9dcdd5393faf5c41fb78a
+    P = normalize(hash_to_G2(b"", dst, hashlib.sha256))
+    if int(P[0].coeffs[0]) != x0:
+        bad.append(("RFC 9380 J.10.1 vector",))
+    return (len(bad) > 0), "c10_pipeline: %s" % bad[:3]
